@@ -77,7 +77,7 @@ func sweepReplay(lg *sim.Log, path string, max int, seed int64) (int, error) {
 		p1 := w.Prods[0].ID
 		step := func(a Act) Res {
 			rs := w.Do(a)
-			par = lg.Add(par, run, a.A, a.Args(), rs, map[string]interface{}{"s": w.Project(), "root": root})
+			par, _ = w.Record(lg, par, run, root, a, rs)
 			return rs
 		}
 		create := func(id uint64) {
